@@ -1,7 +1,7 @@
 (* C14 — Sequencers hand out disjoint gap-free ranges; cursor is the published prefix. *)
 From Coq Require Import List Arith NArith Lia.
 From DC Require Import Disruptor.Claims Disruptor.Pipeline.
-From DC Require Disruptor.SeqApi Disruptor.SeqApiProofs Disruptor.SeqApiMulti Disruptor.SeqApiInOrder Disruptor.MultiPub Disruptor.MultiReplay Disruptor.Clones.
+From DC Require Disruptor.SeqApi Disruptor.SeqApiProofs Disruptor.SeqApiMulti Disruptor.SeqApiInOrder Disruptor.MultiPub Disruptor.MultiReplay Disruptor.Clones Disruptor.EmptyWrite.
 From Coq Require Import ZArith.
 Import ListNotations.
 
@@ -139,3 +139,15 @@ Theorem C14_claims_through_clones_overlap_refuted : forall s c, (c <? SeqApi.mp_
 Proof. exact Clones.clones_hand_out_the_same_range. Qed.
 
 Print Assumptions C14_claims_through_clones_overlap_refuted.
+
+(* Producer::write with an EMPTY batch on the multi-producer sequencer (next(0) hands out the inverted range (hw+1, hw), publish of it
+   marks nothing): with nothing outstanding the whole call leaves the sequencer as it was - the cursor does not move *)
+Theorem C14_empty_write_is_a_no_op : forall s,
+  SeqApi.mp_low s = SeqApi.mp_high s ->
+  ((SeqApi.mp_high s - SeqApi.min_gating (SeqApi.mp_gating s)) + 0 <? SeqApi.mp_size s)%N = true ->
+  let '(s1, r1) := SeqApi.mp_step s (SeqApi.SNext 0) in
+  let '(s2, r2) := SeqApi.mp_step s1 (SeqApi.SPublish (SeqApi.mp_high s + 1) (SeqApi.mp_high s)) in
+  r1 = SeqApi.RClaim (SeqApi.mp_high s + 1) (SeqApi.mp_high s) /\ r2 = SeqApi.RNone /\ s2 = s.
+Proof. exact EmptyWrite.empty_write_is_a_no_op. Qed.
+
+Print Assumptions C14_empty_write_is_a_no_op.
